@@ -8,6 +8,10 @@ import Nstd.Xml.Model
     rt <tree>             -> ok <dump> | fail ... (parse (Xml::toString tree))
     esc <0|1> <hex>       -> str <hex>            (escapeString, text / attribute value)
     unesc <hex>           -> str <hex>
+    copy <tree>           -> cp <tree A> <tree B> <tree C>   (copies of an Element are independent values:
+                             B(A) copy-constructed then edited at top level, C = A assigned then its
+                             content cleared, A printed after the edits and destroyed before B, C are printed;
+                             trees without positions)
   dump / tree:  elem := '(' HEX(name) ['#' line '.' col] { '@' HEX(key) '=' HEX(val) } { ',' child } ')'
                 child := elem | 't' HEX(text)
 -/
@@ -32,6 +36,36 @@ mutual
     | .text s rest => ",t" ++ hx s ++ dumpContent rest
     | .elem e rest => "," ++ dumpElem e ++ dumpContent rest
 end
+
+mutual
+  partial def specElem : Elem → String
+    | .mk name _ _ attrs content =>
+      "(" ++ hx name ++
+        String.join (attrs.map (fun kv => "@" ++ hx kv.1 ++ "=" ++ hx kv.2)) ++ specContent content ++ ")"
+  partial def specContent : Content → String
+    | .nil => ""
+    | .text s rest => ",t" ++ hx s ++ specContent rest
+    | .elem e rest => "," ++ specElem e ++ specContent rest
+end
+
+def Content.snoc : Content → Content → Content
+  | .nil, x => x
+  | .text s r, x => .text s (r.snoc x)
+  | .elem e r, x => .elem e (r.snoc x)
+
+def Content.tail : Content → Content
+  | .nil => .nil
+  | .text _ r => r
+  | .elem _ r => r
+
+/-- the edits the harness applies to the copy-constructed element: new type `zz`, attribute `k`=`v`
+    appended (replacing the value of an existing `k`), first child removed, text `new` appended -/
+def editCopy : Elem → Elem
+  | .mk _ l c attrs content =>
+    .mk [122, 122] l c (attrSet attrs [107] [118]) (content.tail.snoc (.text [110, 101, 119] .nil))
+
+def clearContent : Elem → Elem
+  | .mk n l c attrs _ => .mk n l c attrs .nil
 
 /-- leading hex digits of the character list as bytes -/
 partial def takeHex (cs : List Char) (acc : Bytes) : Option (Bytes × List Char) :=
@@ -112,6 +146,10 @@ def stepLine (_ : Unit) (ws : List String) : Unit × String :=
   | ["rt", tr] =>
     match parseTree tr with
     | some e => ((), showParse (parse (docToStr e)))
+    | none => ((), "bad-op")
+  | ["copy", tr] =>
+    match parseTree tr with
+    | some e => ((), "cp " ++ specElem e ++ " " ++ specElem (editCopy e) ++ " " ++ specElem (clearContent e))
     | none => ((), "bad-op")
   | ["esc", m, h] =>
     match bytesOfHex h with
